@@ -333,6 +333,22 @@ func (app *App) txDeliverer() txDeliverer {
 
 		gas := txCtx.State.ConsumedGas()
 
+		// a delivered transaction takes effect only if it passes the handler's own validation
+		// (signatures over type, payload, fee and memo), exactly as in CheckTx
+		valid, err := handler.Validate(txCtx, *tx)
+		if err != nil || !valid {
+			app.Context.deliver.DiscardTxSession()
+			logString := "invalid transaction"
+			if err != nil {
+				logString = err.Error()
+			}
+			app.logger.Debug("Deliver Tx invalid: ", logString)
+			return ResponseDeliverTx{
+				Code: getCode(false).uint32(),
+				Log:  logString,
+			}
+		}
+
 		ok, response := handler.ProcessDeliver(txCtx, tx.RawTx)
 		feeOk, feeResponse := handler.ProcessFee(txCtx, *tx, gas, storage.Gas(len(msg.Tx)), storage.Gas(response.GasUsed))
 
